@@ -178,6 +178,83 @@ def check_krum(ctx: Ctx, dtype):
                 ctx.violation(f"Krum(f={f}) accepted a matrix with only {bad_m} rows", rp)
 
 
+def trimmed_subnormal(ctx: Ctx):
+    """TrimmedMean on single-precision gradients in the SUBNORMAL range (integers times 2^-149 … 2^-140): the kept entries are
+    summed first and divided once — the result stays within one quantum of the exact trimmed mean and inside the range of the
+    untouched rows (dividing every entry before summing loses whole quanta)"""
+    rng = ctx.rng
+    b = rng.choice([0, 1, 2])
+    m = rng.randint(2 * b + 2, 2 * b + 6)
+    n = rng.choice([1, 2, 3])
+    q = 2.0 ** -149
+    e = rng.choice([0, 2, 5])
+    H = [[rng.randint(1, 7) * 2 ** e for _ in range(n)] for _ in range(m)]              # in quanta
+    J = [row[:] for row in H]
+    bad = rng.sample(range(m), rng.randint(0, b))
+    for r in bad:
+        J[r] = [v * rng.choice([-1000, 1000, 10 ** 6]) for v in J[r]]
+    Jt = torch.tensor([[v * q for v in row] for row in J], dtype=torch.float32)
+    st, x = run_agg(TrimmedMean(trim_number=b), Jt)
+    rp = {"aggregator": f"TrimmedMean({b})", "family": "subnormal", "J_in_quanta_of_2^-149": J, "corrupted_rows": bad}
+    ctx.case(("tm-subnormal", str(J), b), nontrivial=True)
+    ctx.count("trimmed_subnormal")
+    if st != "ok":
+        ctx.violation(f"TrimmedMean({b}) raised {x} on a finite single-precision matrix of subnormal entries", rp)
+        return
+    for c in range(n):
+        col = sorted(J[r][c] for r in range(m))
+        exact = Fr(sum(col[b:m - b]), m - 2 * b)                                        # in quanta
+        got = Fr(float(x[c])) / Fr(q)
+        honest = [H[r][c] for r in range(m) if r not in bad]
+        if abs(got - exact) > 1 or not (min(honest) - 1 <= got <= max(honest) + 1):
+            ctx.violation(f"TrimmedMean({b}) coordinate {c} = {float(got)} quanta (of 2^-149); the trimmed mean of the column is "
+                          f"{float(exact)} quanta and the untouched rows span [{min(honest)}, {max(honest)}]", rp)
+            return
+
+
+def krum_far_outlier(ctx: Ctx):
+    """Krum in single precision with honest gradients of magnitude ~1e8 and ONE corrupted row 1e11-1e12 times larger (inside the
+    property's bound): its distances to the others overflow to inf — an infinite distance is just the largest one; the selected
+    rows are honest and the scores of the honest rows are unaffected"""
+    rng = ctx.rng
+    f = 1
+    m = rng.choice([5, 6, 7])
+    k = rng.randint(1, m - f - 2)
+    n = rng.choice([2, 3, 4])
+    base = [rng.randint(-3, 3) for _ in range(n)]
+    H = [[(base[c] * 10 + rng.randint(-4, 4)) * 1e7 for c in range(n)] for _ in range(m)]
+    r = rng.randrange(m)
+    J = [row[:] for row in H]
+    J[r] = [rng.choice([-1.0, 1.0]) * (abs(v) + 1e7) * rng.choice([1e11, 1e12]) for v in J[r]]
+    Jt = torch.tensor(J, dtype=torch.float32)
+    if not bool(torch.isfinite(Jt).all()):
+        return
+    A = Krum(n_byzantine=f, n_selected=k)
+    st, x = run_agg(A, Jt)
+    rp = {"aggregator": f"Krum({f},{k})", "family": "far outlier (infinite distances)", "J": J, "corrupted_row": r}
+    ctx.case(("krum-far", str(J), k), nontrivial=True)
+    ctx.count("krum_far_outlier")
+    if st != "ok":
+        ctx.violation(f"Krum({f},{k}) raised {x} on a finite single-precision matrix", rp)
+        return
+    w = A.weighting(Jt)
+    sel = sorted(i for i, v in enumerate(w.tolist()) if v != 0)
+    if not bool(torch.isfinite(x).all()) or r in sel or len(sel) != k:
+        ctx.violation(f"Krum({f},{k}) with one row 1e11-1e12 times larger than the others (row {r}): selected rows {sel}, output "
+                      f"{x.tolist()} — the far row must not be selected and the output must be the average of {k} honest rows", rp)
+        return
+    # the honest rows' scores do not involve the far row (m - f - 2 nearest neighbours among m - 1 >= m - f - 1 others)
+    Hd = torch.tensor([row for i, row in enumerate(H) if i != r], dtype=torch.float64)
+    D = torch.cdist(Hd, Hd)
+    sc = D.topk(k=m - f - 2 + 1, largest=False).values[:, 1:].sum(dim=1)
+    order = sc.argsort().tolist()
+    idx = [i for i in range(m) if i != r]
+    if k < len(order) and float(sc[order[k]] - sc[order[k - 1]]) > 1e-3 * float(sc[order[k]]):
+        expsel = sorted(idx[j] for j in order[:k])
+        if sel != expsel:
+            ctx.violation(f"Krum({f},{k}) selected {sel}; by the scores of the honest rows (far row {r} excluded) it should select {expsel}", rp)
+
+
 def main(ctx: Ctx):
     ctx.lean_gate()
     n = 400 if ctx.tier == "quick" else 80000
@@ -185,6 +262,9 @@ def main(ctx: Ctx):
         dtype = torch.float64 if i % 3 else torch.float32
         check_trimmed(ctx, dtype)
         check_krum(ctx, dtype)
+        if i % 10 == 0:
+            trimmed_subnormal(ctx)
+            krum_far_outlier(ctx)
     return ctx.finish(
         rule="honest integer clusters (one or two clusters) with up to b (resp. f) rows replaced by arbitrary values up to "
              "2^40 x the honest scale (exactly representable), all admissible b in 0..3, (f,k) with m <= f+7; "
